@@ -112,6 +112,11 @@ func (e *Exec) call(fn *ssa.Function, args []value) value {
 		e.st.Stubs[fn.String()]++
 		return st(e, fn, args)
 	}
+	return e.callBody(fn, args)
+}
+
+// callBody runs fn's own code (no stub lookup).
+func (e *Exec) callBody(fn *ssa.Function, args []value) value {
 	if fn.Blocks == nil {
 		return e.intrinsic(fn, args)
 	}
